@@ -6,6 +6,7 @@ from __future__ import annotations
 import array
 import builtins
 import contextlib
+import enum
 import io
 
 import bitarray
@@ -95,13 +96,43 @@ def operand_spec(rng, bits: str, kinds=None):
     """Choose a way to hand `bits` to the library; byte-based kinds only when whole bytes."""
     kinds = kinds or OPERAND_KINDS
     k = rng.choice(kinds)
-    if k in ('bytes', 'bytearray', 'memoryview') and (len(bits) % 8 or not bits):
+    if k in ('bytes', 'bytearray', 'memoryview', 'bytes-sub', 'bytearray-sub', 'memoryview-ro') and (len(bits) % 8 or not bits):
         k = 'str'
     return [k, bits]
 
 
 _TRUTHY = [1, 2, -1, 'x', 0.5, True, (0,), '0', 7, 1.0]
 _FALSY = [0, '', None, 0.0, False, (), 0, '', 0, None]
+
+
+# Instances of subclasses of the promotable built-in types: the documentation promises promotion for "a str", "bytes", "an
+# iterable", and the library decides with isinstance, so a subclass instance stands for its base value.
+class StrSub(str):
+    pass
+
+
+class BytesSub(bytes):
+    pass
+
+
+class BytearraySub(bytearray):
+    pass
+
+
+class ListSub(list):
+    pass
+
+
+class TupleSub(tuple):
+    pass
+
+
+def str_enum_member(value: str):
+    """A member of a `class X(str, Enum)` whose value is the given string."""
+    return enum.Enum('StrEnum_', {'MEMBER': value}, type=str).MEMBER
+
+
+SUBCLASS_KINDS = ['str-sub', 'str-enum', 'bytes-sub', 'bytearray-sub', 'list-sub', 'tuple-sub', 'memoryview-ro', 'frozenbitarray']
 
 
 def truthy_items(bits: str):
@@ -127,6 +158,19 @@ def build_operand(spec, receiver=None):
         return tuple(c == '1' for c in bits)
     if k == 'gen':
         return (int(c) for c in bits)
+    if k == 'str-sub':
+        return StrSub(('0b' + bits) if bits else '')
+    if k == 'str-enum':
+        return str_enum_member(('0b' + bits) if bits else '')
+    if k in ('bytes-sub', 'bytearray-sub', 'memoryview-ro'):
+        raw = int(bits, 2).to_bytes(len(bits) // 8, 'big') if bits else b''
+        return BytesSub(raw) if k == 'bytes-sub' else BytearraySub(raw) if k == 'bytearray-sub' else memoryview(bytearray(raw)).toreadonly()
+    if k == 'list-sub':
+        return ListSub(int(c) for c in bits)
+    if k == 'tuple-sub':
+        return TupleSub(c == '1' for c in bits)
+    if k == 'frozenbitarray':
+        return bitarray.frozenbitarray(bits)
     if k == 'truthy':               # arbitrary objects: an iterable is promoted item by item through bool()
         return truthy_items(bits)
     if k == 'truthy-iter':          # ... and handed over as an iterator that can be consumed once only
